@@ -16,8 +16,8 @@
    Clauses still about the model (or about regenerated DATA rather than code):
    * inside the IPAddress accessors the strategy module's function is a prelude symbol py_mod_<f> = the hand model (the accessor
      unit does not inline the module unit); the module functions themselves are covered by C15_encode_spec_of_source;
-   * ipv4.int_to_arpa is covered (through the accessor clause ver = 4 and C15_source_tie_ip); ipv6.int_to_arpa goes through
-     int_to_str (C01) and is not restated here;
+   * int_to_arpa of both modules is C15_arpa_of_source; ipv6.int_to_arpa goes through ipv6.int_to_str and takes the socket back-end
+     as a parameter (Platform: relative to the oracle Std6);
    * the EUI object accessors (EUI.packed / bits / bin / words) are C08's (Props/C08_code.v);
    * BASE_85 / BASE_85_DICT and the dialect rows are regenerated data (C15_tables); IPAddress(result, 6) in base85_to_ipv6 is the
      constructor symbol mk_addr, str() of that object the parameter fmt (C01);
@@ -96,6 +96,15 @@ Theorem C15_accessors_of_source :
   (ver = 6 -> src_IPAddress_reverse_dns ver w v = Ok (spec_arpa6 v)).
 Proof. exact accessors_code. Qed.
 Print Assumptions C15_accessors_of_source.
+
+(* int_to_arpa of both IP strategy modules as regenerated (the clause of C15_encode_spec about reverse_dns, at module level);
+   ipv6.int_to_arpa goes through ipv6.int_to_str, hence the back-end parameter: for be = Platform the statement is relative to the
+   oracle Std6 of Model/IpText.v (inet_ntop), for be = Fallback it goes through Model/FbSocket.v = the regenerated fbsocket.py *)
+Theorem C15_arpa_of_source :
+  (forall v, 0 <= v < 2 ^ 32 -> src_ipv4_int_to_arpa v = Ok (spec_arpa4 v)) /\
+  (forall be v, 0 <= v < 2 ^ 128 -> src_ipv6_int_to_arpa be v = Ok (spec_arpa6 v)).
+Proof. exact arpa_code. Qed.
+Print Assumptions C15_arpa_of_source.
 
 (* C15_base85 about the regenerated rfc1924.py; fmt = str() of the IPv6 address object the decoder builds (a parameter) *)
 Theorem C15_base85_of_source :
